@@ -23,6 +23,8 @@ fn tag3_value(rng: &mut Rng, tag: &str) -> String {
     match tag {
         "103" => s_from(rng, "ABCDEFGHIJKLMNOPQRSTUVWXYZ", 3),
         "113" => s_from(rng, ALNUM, 4),
+        // 16x: blanks are characters of the value, also at its ends (blank-padded fixed-width references)
+        "108" | "424" if rng.below(5) == 0 => { let n = rng.range(1, 12); let core = s_from(rng, ALNUM, n); match rng.below(3) { 0 => format!("{core}  "), 1 => format!(" {core}"), _ => format!("{} {}", core, "X") } }
         "108" => { let n = rng.range(1, 16); s_from(rng, ALNUM, n) }
         "119" => rng.pick(&["STP", "REMIT", "COV", "RFDD"]).to_string(),
         "423" => format!("{}{}{}", s_from(rng, DIG, 6), s_from(rng, DIG, 6), if rng.below(2) == 0 { s_from(rng, DIG, 2) } else { String::new() }),
@@ -280,6 +282,8 @@ pub fn run(o: &Opts) -> Report {
         let b5 = if rng.below(4) > 0 {
             let mut tags: Vec<&str> = BLOCK5_TAGS.iter().filter(|_| rng.below(3) == 0).cloned().collect();
             if i % 50 == 1 { tags = BLOCK5_TAGS.to_vec(); }
+            // the trailer tags in any order (CHK need not come first)
+            if rng.below(2) == 0 { let k = tags.len(); for a in (1..k).rev() { let b = rng.below(a + 1); tags.swap(a, b); } }
             Some(tags.iter().map(|t| (t.to_string(), tag5_value(&mut rng, t))).collect::<Vec<_>>())
         } else { None };
         let env = Envelope { b1: gen_b1(&mut rng), b2: gen_b2(&mut rng, "199"), b3, b4: body.to_string(), b5 };
